@@ -760,8 +760,11 @@ def call_special(eng: Any, tag: tuple, self_: Any, args: list[Any], kwargs: dict
             r = eng.identical(self_, args[0])
             return r if r is True else NotImplemented
         if n == "__ne__":
-            r = eng.identical(self_, args[0])
-            return sym.Not(r)
+            # object.__ne__ delegates to the type's __eq__ and inverts the answer unless that is NotImplemented
+            r = eng.call_dunder(self_, "__eq__", [args[0]], missing_ok=True)
+            if r is NotImplemented:
+                return NotImplemented
+            return sym.Not(eng.as_bool(r))
         if n == "__hash__":
             return _hash(eng, self_)
         if n == "__setattr__":
